@@ -546,11 +546,18 @@ class Engine:
                 ctx.assume(x)
             finals[p_] = nv
             env2[p_ + '_final'] = nv
-        for lab, text in _labelled(c.ensures):
-            g, a = self.spec_bool(text, env2, ghosts=ghosts)
-            for x in a:
-                ctx.assume(x)
-            ctx.assume(g)
+        stack = self.__dict__.setdefault('_ens_stack', [])
+        if q not in stack:
+            # (a postcondition that mentions its own function -- symmetry of an equality -- is not unfolded again inside itself)
+            stack.append(q)
+            try:
+                for lab, text in _labelled(c.ensures):
+                    g, a = self.spec_bool(text, env2, ghosts=ghosts)
+                    for x in a:
+                        ctx.assume(x)
+                    ctx.assume(g)
+            finally:
+                stack.pop()
         if finals and not ctx.spec:
             for p_, nv in finals.items():
                 var = (writeback or {}).get(p_)
@@ -647,6 +654,16 @@ class Engine:
             while isinstance(v.ty, TOpt):
                 v = V(v.ty.inner, v.ty.val(v.t))
             return self.items_of(v, ctx)
+        if name == 'substr':
+            # substr(s, start, length): the plain substring function (no index clamping): for 0 <= start, start + length <= len(s)
+            s_ = ev.ev(n.args[0], ctx)
+            a_ = to_int(ev.ev(n.args[1], ctx))
+            l_ = to_int(ev.ev(n.args[2], ctx))
+            return V(STR, z3.SubString(s_.t, a_, l_))
+        if name == 'litocc':
+            P_ = ev.ev(n.args[0], ctx)
+            T_ = ev.ev(n.args[1], ctx)
+            return self.literal_occurrences(P_, T_, ctx)
         if name == 'same':
             # frame equality: the very same value (for lists / dicts: same array and length, not just equal elements) -- what
             # "this field was not touched" means; stronger than Python's ==
@@ -1297,7 +1314,114 @@ class Engine:
             return False
         return True
 
+    # ---- re.finditer(pattern, text, overlapped=True) with a LITERAL pattern (a residue string): the ascending list of all offsets
+    def literal_occurrences(self, P, T, ctx):
+        """LITOCC(P, T): every offset p with T[p:p+len(P)] == P, ascending, each once (LC-REGEX-LITERAL: the pattern is a string of
+        plain letters, so the regular expression matches exactly its own text; overlapped=True reports overlapping matches)"""
+        lt = TList(INT)
+        f = z3.Function('LITOCC', z3.StringSort(), z3.StringSort(), lt.sort())
+        idx = z3.Function('LITOCC_idx', z3.StringSort(), z3.StringSort(), z3.IntSort(), z3.IntSort())
+        r = f(P.t, T.t)
+        arr, n = lt.arr(r), lt.n(r)
+        lp, ltx = z3.Length(P.t), z3.Length(T.t)
+        j, k, p = fresh('j', z3.IntSort()), fresh('k', z3.IntSort()), fresh('p', z3.IntSort())
+        occ = lambda x: z3.And(0 <= x, x + lp <= ltx, z3.SubString(T.t, x, lp) == P.t)
+        ctx.assume(n >= 0)
+        ctx.assume(z3.ForAll([k], z3.Implies(z3.And(0 <= k, k < n), occ(z3.Select(arr, k)))))
+        ctx.assume(z3.ForAll([j, k], z3.Implies(z3.And(0 <= j, j < k, k < n), z3.Select(arr, j) < z3.Select(arr, k))))
+        ctx.assume(z3.ForAll([p], z3.Implies(occ(p), z3.And(0 <= idx(P.t, T.t, p), idx(P.t, T.t, p) < n,
+                                                             z3.Select(arr, idx(P.t, T.t, p)) == p))))
+        # `P in T` holds exactly when there is an occurrence
+        ctx.assume(z3.Contains(T.t, P.t) == (n > 0))
+        self.libs_used.add('LC-REGEX-LITERAL: re.finditer(P, T, overlapped=True) for a pattern of plain letters yields exactly the offsets p with '
+                           'T[p:p+len(P)] == P, ascending, each once; `P in T` iff there is one')
+        return V(lt, r)
+
+    def finditer_comprehension(self, n, ctx, ev):
+        """[m.start() for m in re.finditer(P, T, overlapped=True) (if cond(m.start()))] -> list of offsets, or None"""
+        if len(n.generators) != 1:
+            return None
+        g = n.generators[0]
+        it = g.iter
+        if not (isinstance(it, ast.Call) and ast.unparse(it.func) == 're.finditer' and len(it.args) == 2 and len(it.keywords) == 1
+                and it.keywords[0].arg == 'overlapped' and isinstance(it.keywords[0].value, ast.Constant) and it.keywords[0].value.value is True
+                and isinstance(g.target, ast.Name)):
+            return None
+        m = g.target.id
+        is_start = lambda x: isinstance(x, ast.Call) and isinstance(x.func, ast.Attribute) and x.func.attr == 'start' \
+            and isinstance(x.func.value, ast.Name) and x.func.value.id == m and not x.args
+        if not is_start(n.elt):
+            return None
+        P = ev.unwrap_opt(ev.ev(it.args[0], ctx), ctx)
+        T = ev.unwrap_opt(ev.ev(it.args[1], ctx), ctx)
+        if P.ty != STR or T.ty != STR:
+            return None
+        S = self.literal_occurrences(P, T, ctx)
+        if not g.ifs:
+            return S
+
+        class Rw(ast.NodeTransformer):
+            def visit_Call(self_, node):
+                if is_start(node):
+                    return ast.copy_location(ast.Name(id='__m_start', ctx=ast.Load()), node)
+                return self_.generic_visit(node)
+        import copy as _c
+        conds = [Rw().visit(_c.deepcopy(c_)) for c_ in g.ifs]
+        if any(isinstance(x, ast.Name) and x.id == m for c_ in conds for x in ast.walk(c_)):
+            return None
+        e = z3.Const('e!filt', z3.IntSort())
+        saved = dict(ctx.env)
+        ctx.env['__m_start'] = V(INT, e)
+        n_as, n_ex = len(ctx.assumes), len(ctx.excs)
+        cond = z3.And(*[truthy(ev.ev(ast.fix_missing_locations(c_), ctx)) for c_ in conds])
+        # side conditions of evaluating cond (callee requires etc.) are stated for the members of S
+        ctx.env.clear()
+        ctx.env.update(saved)
+        lt = S.ty
+        kq = fresh('k', z3.IntSort())
+        memb = z3.And(0 <= kq, kq < lt.n(S.t))
+        for i_ in range(n_as, len(ctx.assumes)):
+            a_ = ctx.assumes[i_]
+            if 'e!filt' in {str(c) for c in _z3_consts(a_)}:
+                ctx.assumes[i_] = z3.ForAll([kq], z3.Implies(memb, z3.substitute(a_, (e, z3.Select(lt.arr(S.t), kq)))))
+        for i_ in range(n_ex, len(ctx.excs)):
+            cls, c_, line = ctx.excs[i_]
+            if 'e!filt' in {str(c) for c in _z3_consts(c_)}:
+                ctx.excs[i_] = (cls, z3.Exists([kq], z3.And(memb, z3.substitute(c_, (e, z3.Select(lt.arr(S.t), kq))))), line)
+        new_side = []
+        for nm_, gd_, goal_ in ctx.side:
+            if 'e!filt' in {str(c) for c in _z3_consts(goal_)} | {str(c) for c in _z3_consts(gd_)}:
+                new_side.append((nm_, z3.BoolVal(True), z3.ForAll([kq], z3.Implies(z3.And(memb, z3.substitute(gd_, (e, z3.Select(lt.arr(S.t), kq)))),
+                                                                                     z3.substitute(goal_, (e, z3.Select(lt.arr(S.t), kq)))))))
+            else:
+                new_side.append((nm_, gd_, goal_))
+        ctx.side[:] = new_side
+        import hashlib
+        text_, cargs = _canon(cond, ('e!filt',))
+        nm = 'FILT_' + hashlib.sha1(text_.encode()).hexdigest()[:12]
+        fR = z3.Function(nm, *([lt.sort()] + [c.sort() for c in cargs] + [lt.sort()]))
+        POS = z3.Function(nm + '_pos', *([lt.sort()] + [c.sort() for c in cargs] + [z3.IntSort(), z3.IntSort()]))
+        INV = z3.Function(nm + '_inv', *([lt.sort()] + [c.sort() for c in cargs] + [z3.IntSort(), z3.IntSort()]))
+        R = fR(S.t, *cargs)
+        pos = lambda k_: POS(S.t, *cargs, k_)
+        inv = lambda i_: INV(S.t, *cargs, i_)
+        sat = lambda x: z3.substitute(cond, (e, x))
+        j, k, i = fresh('j', z3.IntSort()), fresh('k', z3.IntSort()), fresh('i', z3.IntSort())
+        nR, nS = lt.n(R), lt.n(S.t)
+        ctx.assume(z3.And(nR >= 0, nR <= nS))
+        ctx.assume(z3.ForAll([k], z3.Implies(z3.And(0 <= k, k < nR),
+                                             z3.And(0 <= pos(k), pos(k) < nS, z3.Select(lt.arr(R), k) == z3.Select(lt.arr(S.t), pos(k)),
+                                                    sat(z3.Select(lt.arr(S.t), pos(k)))))))
+        ctx.assume(z3.ForAll([j, k], z3.Implies(z3.And(0 <= j, j < k, k < nR), pos(j) < pos(k))))
+        ctx.assume(z3.ForAll([i], z3.Implies(z3.And(0 <= i, i < nS, sat(z3.Select(lt.arr(S.t), i))),
+                                             z3.And(0 <= inv(i), inv(i) < nR, pos(inv(i)) == i))))
+        self.libs_used.add('SPEC-FILTER: [x for x in S if c(x)] is the order-preserving sublist of the members satisfying c (position maps POS / INV)')
+        return V(lt, R)
+
     def list_comprehension(self, n, ctx, ev):
+        r_ = self.finditer_comprehension(n, ctx, ev)
+        if r_ is not None:
+            return r_
         if len(n.generators) == 1 and isinstance(n.generators[0].iter, ast.Name):
             it_v = ctx.env.get(n.generators[0].iter.id)
             if it_v is not None and isinstance(it_v.ty, TBag):
